@@ -15,7 +15,7 @@ func DebugGen(seed int64, n int, show int) {
 		if show < 0 {
 			fmt.Println("idx", i)
 		}
-		g := newGen(t, genConfig{Modules: true, Hosts: true, Consts: true})
+		g := newGen(t, genConfig{Modules: true, Hosts: true, Consts: true, Share: true, Params: true, VarParams: true})
 		src, mods := g.program()
 		mm := newModuleMap(append(append([]srcModule{}, fixedModules...), mods...))
 		bc, err := compile(src, mm, false, 0)
